@@ -375,6 +375,7 @@ def run(ctx):
     canonical_whole_name(ctx)
     dotdot_does_not_cancel_dotdot(ctx)
     search_directories_absolute_before_chdir(ctx)
+    named_files_are_the_users_own(ctx)
 
 def canonical_whole_name(ctx):
     """R17.6: once-only inclusion and `is this a command-line file` compare canonical names.  Two spellings of one file
@@ -500,3 +501,47 @@ def search_directories_absolute_before_chdir(ctx):
                    "no make_absolute() can run after the directory was changed" if not later else
                    "after chdir(), make_absolute() at %s still runs: that path is resolved against the new directory" % f.loc(later[0]))
     ctx.floor("R17.9", "chdir() calls judged", m, 1)
+
+
+def named_files_are_the_users_own(ctx):
+    """R17.10: "a file is the user's own exactly when it is named on the command line or found in the working directory".
+    The first half is one statement in handle_include_directive(): after the lookup, `_explicit_files.count(filename)`
+    overrides whatever ownership the lookup gave - also S_system, because a named header is often reached FIRST through an
+    earlier file's `#include <x>` and a -S directory, and its include guard then blanks the later top-level parse.  The
+    override may depend on nothing but the membership test.  (Seed S10-C17: `source != S_system &&` added in front.)"""
+    db = ctx.db
+    ctx.rule("R17.10", "in handle_include_directive, `source = S_local` for a file in _explicit_files is reached whenever the membership test is true: no other condition stands between a found file and that test")
+    fs = [g for g in db.functions if g.name == "CPPPreprocessor::handle_include_directive"]
+    if not fs:
+        ctx.broken("R17.10: handle_include_directive not found")
+        return
+    f = fs[0]
+    n = 0
+    for y in f.walk():
+        t = assigned_target(y)
+        if not t:
+            continue
+        v = strip_casts(peel(t[1]))
+        if not (v is not None and v.get("k") == "ref" and (v.get("n") or "").endswith("S_local") and local_ref(t[0]) is not None):
+            continue
+        conds = []
+        for a in f.ancestors(y):
+            if a.get("k") == "if" and any(z is y for z in walk(a.get("then") or {})):
+                c0 = strip_casts(peel(a["c"]))
+                stack = [c0]
+                while stack:
+                    c1 = stack.pop()
+                    if c1 is not None and c1.get("k") == "bin" and c1.get("op") == "&&":
+                        stack += [strip_casts(peel(c1["x"])), strip_casts(peel(c1["y"]))]
+                    else:
+                        conds.append(c1)
+        member = [c for c in conds if c is not None and any(z.get("k") == "call" and callee_short(z) in ("count", "find") and (field_of(z.get("this")) or "").endswith("_explicit_files") for z in walk(c))]
+        if not member:
+            continue
+        n += 1
+        found = [c for c in conds if c is not None and any(z.get("k") == "call" and callee_short(z) == "find_include" for z in walk(c))]
+        extra = [c for c in conds if c not in member and c not in found]
+        ctx.ob("R17.10", "handle_include_directive|source=S_local|named-on-the-command-line", not extra, f.loc(y),
+               "a found file that is in _explicit_files is the user's own, whatever the lookup said" if not extra else
+               "the override also requires `%s`" % show(extra[0])[:60])
+    ctx.floor("R17.10", "ownership overrides for named files", n, 1)
